@@ -379,13 +379,19 @@ CLAIMED = {
        "(all_classified), every per-parse member - fEntityExpansionCount/Limit, fReaderMgr, fXMLVersion, ID tables, ... - re-initialised in "
        "scanReset's call closure (reset_complete, no exceptions left), scanReset assigns no configuration member from object state "
        "(reset_touches_no_config), configuration written only by setters/constructors (config_justified), exception lists exact "
-       "(exceptions_exact), every scan entry bumps fSequenceId. Stale progressive-scan tokens are rejected within 2^32 scans; adopted "
+       "(exceptions_exact), every scan entry bumps fSequenceId; the same decided statements for ALL data members of the parser classes "
+       "AbstractDOMParser/XercesDOMParser/DOMLSParserImpl/SAXParser/SAX2XMLReaderImpl against their reset events resetDocument()/resetDocType() "
+       "(Parsers.parser_all_classified, parser_reset_complete, parser_config_justified, parser_exceptions_exact, parser_classes_reset_complete: "
+       "fInternalSubset, fCurrentParent, fWithinElement, fDocumentAdoptedByUser, fElemDepth, fPrefixes, ...). Stale progressive-scan tokens are rejected within 2^32 scans; adopted "
        "documents are never released by the parser; a locked XMLGrammarPoolImpl is frozen under every operation except unlock, also through "
        "GrammarResolver and the whole parser; cache/retrieve/orphan/clear contracts and the resolver's lookup order. Tied to the code by the "
        "translator (field/assignment sets), op-sequence correspondence of the real XMLGrammarPoolImpl and GrammarResolver with the code-shaped "
        "model (dictionary oracle), and differential testing of the 4 parser classes x 4 scanners against freshly constructed parsers configured "
        "by the model: random histories, two-parse histories, witnesses of all repaired/open findings, entity-expansion budgets near the limit, "
-       "configuration read-back, token acceptance, locked-pool invariance, adopted documents, inline/preloaded/cached grammar matrix.",
+       "configuration read-back, token acceptance, locked-pool invariance, adopted documents, parses aborted inside the internal subset / an entity / "
+       "the prolog followed by documents with an internal subset (DOM dump incl. DocumentType internalSubset text, entities, notations), and the "
+       "grammar-transparency matrix validation {never,auto,always} x {inline, preloaded, cached from a parse} x 4 parser kinds + SGXMLScanner over "
+       "valid and invalid instances with errors in root attributes / first child / after the first child / deep (full error lists, defaults, PSVI).",
   note="PARTIAL: the effect of a scan is an abstract parameter (World.scan/next/load), so cached-grammar transparency (same verdicts/defaults/"
        "types) and the parser classes' own members are covered by the differential correspondence only; reset_complete is path-insensitive and "
        "relies on the hand-reviewed classification tools/c15_fields.json (3 reviewed exceptions: fSequenceId, the undeclared-element caches, "
